@@ -324,6 +324,11 @@ def backward_pattern_program(rng, pid):
         g = {"e": le(0, [(1, w)]), "r": "le"}
         blocks = [{"succ": [2, 3], "stmts": pre + dfn}, {"succ": [4], "stmts": [{"op": "assume", "c": g}, asrt]},
                   {"succ": [4], "stmts": [{"op": "assume", "c": negate(g)}]}, {"succ": [], "stmts": []}]
+    if rng.random() < 0.5:      # an empty entry block in front (the defining block is then not the entry of the analysis)
+        for b in blocks:
+            b["succ"] = [t + 1 for t in b["succ"]]
+        blocks.insert(0, {"succ": [2], "stmts": []})
+        shape += "+entry"
     return {"id": pid, "shape": "bwdpat:%s:%s" % (k, shape), "vars": vars_, "kinds": ["int"] * 3, "nv": 3, "entry": 1, "exit": len(blocks),
             "blocks": blocks, "init": []}
 
